@@ -13,6 +13,7 @@ from __future__ import annotations
 
 import asyncio
 import json
+import os
 import random
 import sys
 from typing import Dict, List
@@ -106,8 +107,13 @@ class H:
         return None
 
     def snap(self, i):
+        # runs inside user callbacks: a failure of the harness's own introspection must not raise into the pool
         p = self.pool
-        return (i in p._tasks_running, i in p._tasks_cancelled, i in p._tasks_ended)
+        try:
+            return (i in p._tasks_running, i in p._tasks_cancelled, i in p._tasks_ended)
+        except AttributeError as e:
+            self.harness_broken = f"{type(e).__name__}: {e}"
+            return (None, None, None)
 
     def on_end(self, i):
         self.end_cb.append(i)
@@ -511,6 +517,10 @@ class H:
             try:
                 await op()
             except Exception as e:
+                if not raised_inside_package(e):
+                    # the harness itself failed (e.g. it looked at a private attribute that a refactoring renamed): that is not
+                    # a property violation - the explorer gives up (exit 2), it must never turn a harmless change into an alarm
+                    raise HarnessError(f"{type(e).__name__}: {e}") from e
                 self.v(["C06", "C07", "C09", "C10", "C13"], f"operation {getattr(op, '__name__', 'finish-failing')} raised {type(e).__name__}: {e} after {self.log[-3:]}")
                 return
             await drain()
@@ -598,6 +608,20 @@ def ids_now(self: Req, h: H):
 Req.ids_now = ids_now
 
 
+class HarnessError(Exception):
+    pass
+
+
+def raised_inside_package(e: BaseException) -> bool:
+    """was the exception raised by code of the package under test (or deeper), as opposed to this harness?"""
+    tb = e.__traceback__
+    last = None
+    while tb is not None:
+        last = tb.tb_frame.f_code.co_filename
+        tb = tb.tb_next
+    return last is not None and os.path.abspath(last) != os.path.abspath(__file__)
+
+
 async def one(seed: int):
     rnd = random.Random(seed)
     h = H(rnd, simple=rnd.random() < 0.3, size=rnd.choice([1, 1, 2, 2, 3, None]))
@@ -630,6 +654,8 @@ def main():
         finally:
             loop.close()
         tried += 1
+        if getattr(h, "harness_broken", None):
+            raise HarnessError(h.harness_broken)
         mine = [v for v in h.viol if prop == "all" or prop in v["props"]]
         if mine:
             print(json.dumps({"violated": True, "property": prop, "seed": seed, "pool": ("SimpleTaskPool" if h.simple else "TaskPool"), "size": h.size, "history": h.log,
@@ -640,4 +666,11 @@ def main():
 
 
 if __name__ == "__main__":
-    sys.exit(main())
+    try:
+        rc = main()
+    except BaseException as e:  # noqa: BLE001 - a crash of the harness is never a verdict
+        import traceback
+
+        print(json.dumps({"violated": False, "harness_crash": f"{type(e).__name__}: {e}", "traceback": traceback.format_exc(limit=4)[-800:]}))
+        rc = 2
+    sys.exit(rc)
